@@ -1,7 +1,7 @@
 (* Model of the static file handlers (C06): humphrey/src/route.rs try_find_path, humphrey/src/handlers.rs serve_dir and
    serve_as_file_path (same text in tokio/handlers.rs), humphrey-server/src/server/static.rs directory_handler, over an
    abstract file tree with POSIX path resolution (no symlinks). Paths are UTF-8 byte strings. Definitions only. *)
-From Hv Require Import Prelude Bytes TablesHttp Http.
+From Hv Require Import Prelude Bytes TablesHttp Http Percent.
 Open Scope N_scope.
 
 Definition SLASH : N := 47.
@@ -84,23 +84,8 @@ Fixpoint strip_prefix (pre l : bytes) : option bytes :=
   | _ :: _, [] => None
   end.
 
-(* percent-decoding as in percent.rs (after fix F29: both characters after '%' must be hex digits) *)
-Fixpoint pct_decode_fuel (fuel : nat) (l : bytes) : option bytes :=
-  match fuel with
-  | O => match l with [] => Some [] | _ => None end
-  | S f =>
-    match l with
-    | [] => Some []
-    | 37 :: a :: b :: r =>
-      match hex_val a, hex_val b with
-      | Some x, Some y => match pct_decode_fuel f r with Some d => Some ((x * 16 + y) :: d) | None => None end
-      | _, _ => None
-      end
-    | 37 :: _ => None
-    | c :: r => match pct_decode_fuel f r with Some d => Some (c :: d) | None => None end
-    end
-  end.
-Definition pct_decode (l : bytes) : option bytes := pct_decode_fuel (length l) l.
+(* percent-decoding: the model of percent.rs proved in PercentProofs.v (C18) *)
+Definition pct_decode (l : bytes) : option bytes := Percent.percent_decode l.
 
 (* Path::extension of the last component: text after the last '.', unless the name has no '.' or only a leading one *)
 Fixpoint last_dot_split (l : bytes) (acc_before : bytes) (cur : bytes) (seen : bool) : option (bytes * bytes) :=
